@@ -30,7 +30,7 @@ type filepathJoinChecker struct {
 
 func (c *filepathJoinChecker) VisitExpr(expr ast.Expr) {
 	call := astcast.ToCallExpr(expr)
-	if qualifiedName(call.Fun) != "filepath.Join" {
+	if !isPkgFunc(c.ctx.TypesInfo, call.Fun, "path/filepath", "Join") {
 		return
 	}
 
